@@ -619,6 +619,39 @@ pub fn run(cfg: &Config) -> i32 {
             cases.push(("history-systematic".into(), c));
         }
     }
+    // numbered tags ("50#1", "50#2": kept verbatim as map keys) consumed through the tracker by their full tag
+    for t in [
+        ":20:REF\n:50#1:/ACC\nNAME\n:50#2:BANKDEFF\n:50#1:/ACC2\nNAME2\n:50#2:BANKGB2L\n:59:/X\nY",
+        ":20:REF\n:50#1:A\n:50#1:B\n:50#1:C\n:50:/P\nQ\n:50#2:D",
+        ":21:R1\n:32B:EUR1,\n:50#2:X\n:21:R2\n:32B:EUR2,\n:50#2:Y\n:21:R3\n:50#2:Z",
+    ] {
+        let keys = ["50#1", "50#2", "50", "21", "32B"];
+        let mut k = 0u64;
+        // every key: next / mark alternately to exhaustion, then the same with one out-of-order mark first
+        for key in keys {
+            let drain: Vec<Op> = (0..4).flat_map(|_| vec![Op::Next { tag: key.to_string() }, Op::MarkNext { tag: key.to_string() }]).chain(std::iter::once(Op::Next { tag: key.to_string() })).collect();
+            cases.push(("history-numbered".into(), Case::History { text: t.to_string(), ops: drain.clone() }));
+            let mut later = vec![Op::MarkLater { tag: key.to_string(), k: 0 }];
+            later.extend(drain);
+            cases.push(("history-numbered".into(), Case::History { text: t.to_string(), ops: later }));
+        }
+        for _ in 0..cfg.tier.pick(40, 400) {
+            k += 1;
+            let mut rr = Rng::new(cfg.seed, "c16-numbered", k);
+            let n = 3 + rr.below(12);
+            let ops: Vec<Op> = (0..n)
+                .map(|_| {
+                    let tag = rr.pick(&keys).to_string();
+                    match rr.below(4) {
+                        0 | 1 => Op::Next { tag },
+                        2 => Op::MarkNext { tag },
+                        _ => Op::MarkLater { tag, k: rr.below(3) },
+                    }
+                })
+                .collect();
+            cases.push(("history-numbered".into(), Case::History { text: t.to_string(), ops }));
+        }
+    }
     // large texts: stamp packing beyond 65535 fields (quick: 70k once; thorough: three sizes)
     for nfields in cfg.tier.pick(vec![1000usize, 70_000], vec![1000, 65_535, 65_537, 70_000]) {
         let mut s = String::with_capacity(nfields * 12);
